@@ -32,6 +32,7 @@ type c08Scenario struct {
 	Client         ClientOpts `json:"client"`
 	Ops            []c08Op    `json:"ops"`
 	Tasks          int        `json:"tasks"`
+	NotConnected   string     `json:"sends_without_a_connection,omitempty"` // never-connected | dial-refused
 	BackPressure   int        `json:"backpressure_window,omitempty"` // >0: the server's receive window; it stops reading for a while
 	StallMs        int        `json:"server_stops_reading_ms,omitempty"`
 	FailWrite      int        `json:"fail_write_j"` // j-th socket write after establishment fails (0: none)
@@ -61,6 +62,9 @@ func c08Body(id string, size int) string {
 
 func runC08(e *Engine, g G, o RunOpt) RunInfo {
 	sc := &c08Scenario{Client: DefaultClientOpts()}
+	if g.Pct("not-connected", 4) {
+		return runC08NotConnected(e, g, sc)
+	}
 	sc.Component = g.Pct("component", 25)
 	sc.TLS = !sc.Component && g.Pct("tls", 25)
 	sc.WebSocket = !sc.Component && !sc.TLS && g.Pct("websocket", 20)
@@ -358,6 +362,82 @@ func runC08(e *Engine, g G, o RunOpt) RunInfo {
 	}
 	if logw != nil && logw.Fails > 0 {
 		e.Probe("c08.log_write_failed")
+	}
+	return info
+}
+
+// runC08NotConnected: sends on a client that has no connection (it never connected, or its only
+// dial was refused) cannot put anything on a wire: each of them has to say so with an error.
+func runC08NotConnected(e *Engine, g G, sc *c08Scenario) RunInfo {
+	sc.WebSocket = g.Bool("websocket")
+	sc.Client.WebSocket = sc.WebSocket
+	sc.Client.Logger = g.Weighted("logger", 5, 3)
+	sc.NotConnected = []string{"never-connected", "dial-refused"}[g.N("how", 2)]
+	type res struct {
+		api      string
+		err      error
+		panicked bool
+	}
+	var results []res
+	created := false
+	e.Run(func() {
+		var ws *WSServer
+		if sc.WebSocket {
+			ws = NewWSServer(e)
+			defer ws.Stop()
+		}
+		w := NewCW(e, sc.Client, sharedCerts())
+		w.CatchAll()
+		if err := w.Create(); err != nil {
+			return
+		}
+		created = true
+		if sc.NotConnected == "dial-refused" {
+			e.Net.DialPlan = func(int) Dial { return DialRefuse }
+			e.Call("Connect", w.Client.Connect)
+			e.Sleep(time.Duration(sc.Client.ConnectTimeout+2) * time.Second)
+		}
+		for _, api := range []string{"Send", "SendRaw", "SendIQ"} {
+			api := api
+			err, p := e.Call(api+" without a connection", func() error {
+				switch api {
+				case "Send":
+					return w.Client.Send(stanza.Message{Attrs: stanza.Attrs{Id: "nc1", To: "peer@" + SimDomain}, Body: "nobody there"})
+				case "SendRaw":
+					return w.Client.SendRaw("<message id='nc2' to='peer@" + SimDomain + "'><body>nobody there</body></message>")
+				default:
+					iq, _ := stanza.NewIQ(stanza.Attrs{Type: stanza.IQTypeGet, Id: "nc3", To: SimDomain})
+					iq.Payload = &stanza.Version{}
+					ctx, cancel := context.WithCancel(context.Background())
+					defer cancel()
+					_, err := w.Client.SendIQ(ctx, iq)
+					return err
+				}
+			})
+			results = append(results, res{api, err, p})
+		}
+		e.Sleep(time.Second)
+	})
+	info := RunInfo{Scenario: sc, Nontrivial: created}
+	if !created {
+		return info
+	}
+	e.Probe("c08.sends_without_a_connection")
+	if e.Stuck != "" {
+		e.Violate("C08", "stuck", "%s", e.Stuck)
+	}
+	for _, r := range results {
+		switch {
+		case r.panicked:
+			e.Violate("C08", "send-without-connection-panics:"+r.api, "%s on a client without a connection (%s, websocket=%v) panicked instead of returning an error", r.api, sc.NotConnected, sc.WebSocket)
+		case r.err == nil:
+			e.Violate("C08", "send-without-connection-succeeds:"+r.api, "%s on a client without a connection (%s, websocket=%v) returned nil", r.api, sc.NotConnected, sc.WebSocket)
+		}
+	}
+	for _, p := range e.Panics {
+		if !strings.HasPrefix(p.Where, "harness:") {
+			e.Violate("C08", "panic", "%s: %s", p.Where, p.Value)
+		}
 	}
 	return info
 }
